@@ -95,6 +95,9 @@ class Check(FormulaCheck):
             return rnd.choice([0, 1, -1, 700, -700, rnd.uniform(-700, 700), rnd.uniform(-5, 5), s * 10 ** rnd.uniform(-8, 2.8)])
         if tag in ('trig', 'trigpole'):
             return rnd.choice([0, 1, -1, 3, 0.5, rnd.uniform(-20, 20), rnd.uniform(-1000, 1000), s * 10 ** rnd.uniform(-8, 8), rnd.randint(-10 ** 6, 10 ** 6)])
+        if k < 0.12:
+            # just beside 1 and beside powers of ten / two (far more than an ulp, far less than a casual epsilon): where a result is just beside a whole number
+            return rnd.choice([1.0, 10.0 ** rnd.randint(-3, 6), 2.0 ** rnd.randint(-3, 10)]) * (1 + s * 10 ** rnd.uniform(-13, -7))
         return rnd.choice([0, 1, -1, 2, 0.5, 1e-8, 1e8, -1e8, rnd.randint(-1000, 1000), s * 10 ** rnd.uniform(-8, 8), rnd.uniform(-10, 10), rnd.uniform(0, 1)])
 
     def judge_call(self, fn, x, ref_fn, dom, how='number'):
@@ -164,6 +167,8 @@ class Check(FormulaCheck):
                     self.expect('C16/%s:non-numeric-text-yields-a-number' % fn, self.is_err(g), x=t, got=g)
             # two-argument functions
             x, b = self.arg(rnd, 'any'), rnd.choice([2, 10, 0.5, 1, 0, -2, 3, math.e, rnd.uniform(0.01, 20)])
+            if b > 0 and b != 1 and rnd.random() < 0.3:
+                x = float(b) ** rnd.randint(-3, 8) * (1 + rnd.choice([1, -1]) * 10 ** rnd.uniform(-13, -7))       # just beside a power of the base
             g = self.ev('LOG(v_x,v_b)', v_x=x, v_b=b)
             rec.nt(('LOG', x, b))
             if x > 0 and b > 0 and b != 1:
